@@ -292,7 +292,26 @@ pub fn run_labels(
         if narrate {
             println!("  step {:3}: {}", i, l);
         }
+        let seen_records = sys.select_log.len();
         sys.apply(&act)?;
+        if narrate {
+            for r in &sys.select_log[seen_records..] {
+                println!(
+                    "            select in {} at t={}: sources={} mailbox={:?} cursors={:?} receiving={:?} -> {:?}; after: mailbox={:?} cursors={:?} receiving={:?} stack_top={:?}",
+                    sys.path_of(r.pid),
+                    r.now,
+                    r.before.sources.len(),
+                    r.before.mailbox.iter().map(|m| &m.1).collect::<Vec<_>>(),
+                    r.before.cursors,
+                    r.before.receiving.as_ref().map(|(i, m)| (i, &m.1)),
+                    r.outcome,
+                    r.after.mailbox.iter().map(|m| &m.1).collect::<Vec<_>>(),
+                    r.after.cursors,
+                    r.after.receiving.as_ref().map(|(i, m)| (i, &m.1)),
+                    r.after.stack_top.as_ref().map(|m| (&m.0, &m.1)),
+                );
+            }
+        }
         findings.extend(monitor.after(&mut sys, &act));
         if !findings.is_empty() || !sys.errors.is_empty() {
             break;
